@@ -248,6 +248,15 @@ def py_conforms(ty, x, reg) -> bool:
     if tag == "map":
         if type(x) is not S.MAP_CLASS[ty[1]]:
             return False
+        if ty[1] == "ddict" and x.default_factory is not None:
+            # a rebuilt defaultdict is usable as one: its factory is a callable CLASS, the one behind the value type
+            # where that is a builtin container / scalar (typing.List[int] is not callable)
+            vt = ty[3]
+            expect = {"int": int, "float": float, "str": str, "bool": bool}.get(vt) if isinstance(vt, str) else (S.COLL_CLASS.get(vt[1]) if vt[0] == "coll" else (S.MAP_CLASS.get(vt[1]) if vt[0] == "map" else None))
+            if not isinstance(x.default_factory, type):
+                return False
+            if expect is not None and x.default_factory is not expect:
+                return False
         return all(py_conforms(ty[2], k, reg) and py_conforms(ty[3], v, reg) for k, v in x.items())
     if tag == "chain":
         return type(x) is collections.ChainMap and all(type(m) is dict and all(py_conforms(ty[1], k, reg) and py_conforms(ty[2], v, reg) for k, v in m.items()) for m in x.maps)
